@@ -1,0 +1,31 @@
+//go:build verif
+
+package http
+
+// Contracts for /verif (contract-based deductive verification of this package).
+// Comment-only file: only the lines starting with "//@" are read, by /verif/bin/govc.
+
+//@ func getSourceName trusted pure stable
+//@ func getKey trusted pure stable
+//@ func hasRequestBody trusted pure stable
+//@ func (*Server).getGateKeeper trusted
+//@   modifies s.GateKeepers, entries(s.GateKeepers)
+//@ func (*Server).handleError trusted
+//@   modifies nothing
+//@ func (*Server).potentiallySimulateFailure trusted
+//@   modifies nothing
+//@ func (*Server).respond trusted
+//@   modifies nothing
+
+//@ interface sts.GateKeeper.Ready trusted
+//@   modifies nothing
+
+// ---------------------------------------------------------------- refusal of unauthorised or premature requests (C15)
+
+//@ func (*Server).handleValidate$1
+//@   before call net/http.Handler.ServeHTTP assert forward-needs-all-three: called((*Server).getGateKeeper) && lastret((*Server).getGateKeeper, 0) != nil && called(sts.GateKeeper.Ready) && lastret(sts.GateKeeper.Ready, 0) && lastarg(sts.GateKeeper.Ready, 0) == lastret((*Server).getGateKeeper, 0) && called(IsValid) && lastret(IsValid, 0) && lastarg(IsValid, 0) == getSourceName(r) && lastarg(IsValid, 1) == getKey(r) && arg0 == next && arg2 == r && arg1 == w
+//@   before call net/http.Handler.ServeHTTP assert nothing-written-before: !called(net/http.ResponseWriter.WriteHeader) && !called(net/http.ResponseWriter.Write)
+//@   before call net/http.ResponseWriter.WriteHeader assert status-codes: (arg1 == 400 && lastret((*Server).getGateKeeper, 0) == nil) || (arg1 == 503 && lastret((*Server).getGateKeeper, 0) != nil && !lastret(sts.GateKeeper.Ready, 0)) || (arg1 == 403 && lastret(sts.GateKeeper.Ready, 0) && !lastret(IsValid, 0))
+//@   on return assert refused-or-forwarded: called(net/http.Handler.ServeHTTP) != called(net/http.ResponseWriter.WriteHeader)
+//@   forbid call sts.GateKeeper.Receive label no-effect-in-the-guard
+//@   forbid call sts.GateKeeper.Prepare label no-effect-in-the-guard
